@@ -270,12 +270,8 @@ def r3_deposits(ctx):
     r.anchor(tl and tr, "totals")
     for nm, defs, idx in (("total_lefts", tl, 0), ("total_rights", tr, 1)):
         e = defs[0][1]
-        ok = q.is_call(e, "fold") and q.is_call(e[2][0], "Iterator::map") and sig(e[2][0][2][0]) == "$3" and q.const_val(e[2][1]) == 0
-        if ok:
-            mc = ctx.prog.body(e[2][0][2][1][1])
-            rr = q.ret_assignments(mc)
-            ok = len(rr) == 1 and sig(rr[0][2]) == "%s($2.outputs, %d).value.0" % (IDX, idx)
-        r.check(ok, "totals/%d" % idx, "%s = Σ outputs[%d].value" % (nm, idx), "%s is %s" % (nm, sig(e)[:150]))
+        term = q.sum_over(ctx.prog, b, e)
+        r.check(term in ("%s(@.outputs, %d).value.0" % (IDX, idx), "%s(@.outputs, %d).value" % (IDX, idx)), "totals/%d" % idx, "%s = Σ outputs[%d].value" % (nm, idx), "%s is %s (summand %s)" % (nm, sig(e)[:150], term))
     deps = q.call_exprs(b, "PoolState::deposit")
     r.check(len(deps) >= 1, "deposit/call", "PoolState::deposit is called", "no deposit call")
     for bi, e in deps:
@@ -312,18 +308,9 @@ def r3_deposits(ctx):
         # "pro rata": the shares Σ floor(total_liqs·wᵢ/W) add up to at most total_liqs only if W = Σ wᵢ — the denominator must be the sum, over the same
         # batch, of the very expression used as the numerator (a denominator computed another way, e.g. √Σl·√Σr, can be smaller than Σ √lᵢ·√rᵢ)
         tme = mir.strip(caps.get("_ref__total_mtsqrt", ("unknown", "")))
-        okd, why = False, "denominator = %s" % sig(q.novers(tme))[:160]
-        if q.is_call(tme, "fold") and q.is_call(tme[2][0], "Iterator::map") and sig(tme[2][0][2][0]) == "$3" and q.const_val(tme[2][1]) == 0 and tme[2][0][2][1][0] == "closure":
-            mc = ctx.prog.body(tme[2][0][2][1][1])
-            rr = q.ret_assignments(mc)
-            fc = ctx.prog.body(tme[2][2][1]) if tme[2][2][0] == "closure" else None
-            fr = q.ret_assignments(fc) if fc is not None else []
-            addok = len(fr) == 1 and q.arith_nf(fr[0][2]) in (q.B("Add", ("param", 2, "a"), ("param", 3, "b")), q.B("Add", ("param", 3, "b"), ("param", 2, "a"))) or \
-                (len(fr) == 1 and sig(q.arith_nf(fr[0][2])) in ("Add($2, $3)", "Add($3, $2)"))
-            if len(rr) == 1 and sig(q.novers(rr[0][2])) == my and addok:
-                okd = True
-            else:
-                why = "denominator sums %s with %s, the numerator is %s" % (sig(rr[0][2])[:120] if rr else "?", sig(fr[0][2])[:60] if fr else "?", my[:120])
+        term = q.sum_over(ctx.prog, b, tme)
+        okd = term is not None and term == my.replace("$2", "@")
+        why = "denominator = %s" % sig(q.novers(tme))[:160] if term is None else "denominator sums %s, the numerator is %s" % (term[:120], my[:120])
         r.check(okd, "rewrite/denominator", "the pro-rata denominator is Σ over the batch of the numerator expression √(lᵢ)·√(rᵢ)",
                 "the pro-rata denominator is not the sum of the numerators over the batch (%s): the shares can add up to more than total_liqs, i.e. more liquidity tokens than the pool records" % why)
     else:
@@ -352,13 +339,16 @@ def r3_withdrawals(ctx):
     tq = q.var_def_exprs(b, "total_liqs")
     r.anchor(tq, "total_liqs")
     e = tq[0][1]
-    ok = q.is_call(e, "fold") and q.is_call(e[2][0], "Iterator::map") and sig(e[2][0][2][0]) == "$3" and q.const_val(e[2][1]) == 0
-    if ok:
-        rr = q.ret_assignments(ctx.prog.body(e[2][0][2][1][1]))
-        ok = len(rr) == 1 and sig(rr[0][2]) == "%s($2.outputs, 0).value.0" % IDX
-    r.check(ok, "total", "total_liqs = Σ outputs[0].value", "total_liqs = %s" % sig(e)[:150])
+    if len(tq) > 1:
+        # accumulator spelling: `let mut total_liqs = 0; for tx in batch { total_liqs = total_liqs + .. }`
+        upd = [d[1] for d in tq if q.const_val(d[1]) is None]
+        e = mir.mk_phi([("const", "u128", 0)] + upd[:1]) if upd else e
+    term = q.sum_over(ctx.prog, b, e)
+    r.check(term in ("%s(@.outputs, 0).value.0" % IDX, "%s(@.outputs, 0).value" % IDX), "total", "total_liqs = Σ outputs[0].value", "total_liqs = %s (summand %s)" % (sig(e)[:150], term))
     wd = q.call_exprs(b, "PoolState::withdraw")
-    r.check(len(wd) == 1 and q.novers(wd[0][1][2][1]) == q.novers(e), "withdraw/args", "withdraw(total_liqs)", "withdraw calls: %s" % [sig(w[1])[:100] for w in wd])
+    wt = q.sum_over(ctx.prog, b, wd[0][1][2][1]) if len(wd) == 1 else None
+    r.check(len(wd) == 1 and (q.novers(wd[0][1][2][1]) == q.novers(e) or (wt is not None and wt == term) or sig(q.novers(mir.strip(wd[0][1][2][1]))) == "total_liqs"), "withdraw/args", "withdraw(total_liqs)",
+            "withdraw calls: %s" % [sig(w[1])[:100] for w in wd])
     ins = q.call_exprs(b, "SmtMapping::insert")
     r.check(len(ins) == 1 and sig(q.novers(ins[0][1])) == "SmtMapping::insert($2.pools, $1, pool_state)", "pool-written-back", "pool state written back", "pool writes: %s" % [sig(i[1]) for i in ins])
     fe = [c for c in cls if q.calls_to(c, "CoinMapping::insert_coin")]
